@@ -75,6 +75,11 @@ var (
 // the sender takes part in every Direct.
 var resendTopic bool
 
+// hostlessTopic (with resendTopic): the receiver is handed the topic but no
+// host (NewReceiver(nil, "", WithTopic(...)): it republishes on the topic and
+// reads nothing from it)
+var hostlessTopic bool
+
 // filterIPs: the receivers of the (H) sequences are created with
 // WithFilterIPs(true) and every direct announcement carries addresses that the
 // filter removes (loopback and private only), so that the filtering code takes
@@ -134,7 +139,11 @@ func newReceiverCleanup() (*announce.Receiver, func()) {
 			time.Sleep(30 * time.Minute)
 		}
 	}
-	r, err := announce.NewReceiver(h, "", opts...)
+	rh := h
+	if hostlessTopic {
+		rh = nil
+	}
+	r, err := announce.NewReceiver(rh, "", opts...)
 	if err != nil {
 		panic(err)
 	}
@@ -791,7 +800,7 @@ func pubsubScenario(extra []string) *sched.Scenario {
 
 func TestCheck(t *testing.T) {
 	r := vp.New("C16", "model_checking",
-		"(H) every sequence of <= N operations over {Close, Direct(c1), Direct(c2), Direct(c1) from a denied peer, Next, UncacheCid(c1)}, each operation started in its own goroutine in a synctest bubble and observed at quiescence as returned(value) / blocked, compared after every step with a reference model of the receiver (closed flag, one-slot queue, duplicate set, blocked callers), and the same one operation shallower with an allow filter that itself calls the receiver (UncacheCid of an unrelated CID) before answering, and the same at full depth with receivers that have a pubsub topic and republish every direct announcement (WithResend(true)), asked for their topic's name (TopicName) after every operation, and once more with address filtering on (WithFilterIPs(true)) and direct announcements carrying only loopback and private addresses; after every sequence that leaves the receiver open with nobody waiting, what is queued is taken out and a direct announcement of a fresh CID must go through (Direct returns, Next delivers it); (S) every set of 2 threads x 1-2 operations and 3 threads x 1 operation containing at least one Close (3 threads x <=2 operations in the thorough tier), all interleavings at the scheduling points of the instrumented announce package up to the preemption bound. states = distinct decision states / sequences; transitions = scheduling steps / operations; traces = executions of the real receiver.",
+		"(H) every sequence of <= N operations over {Close, Direct(c1), Direct(c2), Direct(c1) from a denied peer, Next, UncacheCid(c1)}, each operation started in its own goroutine in a synctest bubble and observed at quiescence as returned(value) / blocked, compared after every step with a reference model of the receiver (closed flag, one-slot queue, duplicate set, blocked callers), and the same one operation shallower with an allow filter that itself calls the receiver (UncacheCid of an unrelated CID) before answering, and the same at full depth with receivers that have a pubsub topic and republish every direct announcement (WithResend(true)), asked for their topic's name (TopicName) after every operation, also (one operation shallower) on a receiver that was given the topic but no host, and once more with address filtering on (WithFilterIPs(true)) and direct announcements carrying only loopback and private addresses; after every sequence that leaves the receiver open with nobody waiting, what is queued is taken out and a direct announcement of a fresh CID must go through (Direct returns, Next delivers it); (S) every set of 2 threads x 1-2 operations and 3 threads x 1 operation containing at least one Close (3 threads x <=2 operations in the thorough tier), all interleavings at the scheduling points of the instrumented announce package up to the preemption bound. states = distinct decision states / sequences; transitions = scheduling steps / operations; traces = executions of the real receiver.",
 		"(H) and (S): receiver without pubsub (nil host); (P): the receiver with a gossipsub topic on one transport-less libp2p host, a thread publishing one announcement, so that the watcher goroutine takes part: publish || Close, optionally || UncacheCid / Next / a second Close / Direct, the Direct variants also with WithResend(true) (direct announcements republished on a topic that has no other subscriber); every call returns and no receiver goroutine is left. Sequences in which Go itself may legally choose between two answers (Next after Close with a queued announcement, two Direct calls blocked at once) are skipped in (H) and accepted either way in (S)",
 		"instrumented select statements try their cases in source order (a legal restriction of Go's choice)",
 	)
@@ -853,6 +862,26 @@ func TestCheck(t *testing.T) {
 		resendTopic, seqKeyPrefix = true, "resend-topic|seq|"
 		rec(nil)
 		resendTopic, seqKeyPrefix = false, "seq|"
+	}
+	// the same one operation shallower on a receiver that was given the topic
+	// but no host
+	if !r.Replaying() || strings.HasPrefix(r.ReplayKey(), "hostless-topic|seq|") {
+		hdepth := depth - 1
+		var rec func(seq []op)
+		rec = func(seq []op) {
+			if len(seq) > 0 {
+				runSequence(t, r, seq)
+			}
+			if len(seq) == hdepth {
+				return
+			}
+			for o := op(0); o < nOps; o++ {
+				rec(append(seq[:len(seq):len(seq)], o))
+			}
+		}
+		resendTopic, hostlessTopic, seqKeyPrefix = true, true, "hostless-topic|seq|"
+		rec(nil)
+		resendTopic, hostlessTopic, seqKeyPrefix = false, false, "seq|"
 	}
 	// and at full depth with address filtering on and direct announcements
 	// that carry nothing but addresses the filter removes
